@@ -59,6 +59,11 @@ def main():
             ("outside-region flag", lambda e: e["ev"] == "dec", lambda e: dict(e, outside_ok=False)),
             ("inflate: claim stream end early", lambda e: e["ev"] == "inf" and e["status"] == "Ok", lambda e: dict(e, status="StreamEnd")),
         ]),
+        ("streamcomp", [
+            ("hook: history larger than the window allows", lambda e: e["ev"] == "comp" and "lz" in e and e["lz"]["lasize"] > 0, lambda e: dict(e, lz=dict(e["lz"], dsize=32768))),
+            ("hook: look-ahead position off by one", lambda e: e["ev"] == "comp" and "lz" in e and e["lz"]["lapos"] > 0, lambda e: dict(e, lz=dict(e["lz"], lapos=e["lz"]["lapos"] - 1))),
+            ("hook: ring content differs from the input", lambda e: e["ev"] == "comp" and "lz" in e and e["lz"]["dsize"] > 3, lambda e: dict(e, lz=dict(e["lz"], hist_bad=3))),
+        ]),
         ("deflate_protocol", [
             ("written beyond the buffer", lambda e: e["ev"] == "defl" and e["out_len"] > 0, lambda e: dict(e, written=e["out_len"] + 1)),
             ("drop the call that returned stream end", lambda e: e["ev"] == "defl" and e["status"] == "StreamEnd", lambda e: None),
